@@ -87,7 +87,22 @@ def fitted(repo, qual, kind, extra=None, ranks=None, fallback=None):
           'T_ref': D.sym('T_ref'), 'HoRT_ref': D.sym('HoRT_ref'), 'SoR_ref': D.sym('SoR_ref')}
     kw.update(extra(I) if extra else {})
     o = I.call_function(owner.module, fn, [], kw, self_obj=ci, owner=owner, name=owner.qual + '.from_data')
+    I.c03_again = (ci, owner, fn, dict(kw))
     return I, o, owner, fn
+
+
+SECOND = ' [second species fitted in the same process]'
+
+
+def fitted_again(I):
+    """a second species fitted in the SAME interpreter (one process fits many species one after the other): the same
+    data, its own reference (T_ref2, HoRT_ref2, SoR_ref2) - whatever survives from one fit to the next (a buffer
+    allocated once, a memoised result) shows up in one of the two species"""
+    ci, owner, fn, kw = I.c03_again
+    kw = dict(kw)
+    kw.update({'name': 'sp2', 'T_ref': I.D.sym('T_ref2'), 'HoRT_ref': I.D.sym('HoRT_ref2'),
+               'SoR_ref': I.D.sym('SoR_ref2')})
+    return I.call_function(owner.module, fn, [], kw, self_obj=ci, owner=owner, name=owner.qual + '.from_data')
 
 
 def evaluator(I, repo, fam, q, a, T, units=None):
@@ -127,10 +142,23 @@ def fit_of(I, vec, cp_slots):
     return sorted(ks)
 
 
-def mask_bounds(mask):
-    """(lower (op, value) | None, upper (op, value) | None) of a mask on the temperature data"""
+_MIRROR = {'<': '>', '<=': '>=', '>': '<', '>=': '<='}
+
+
+def mask_bounds(mask, is_data=None):
+    """(lower (op, value) | None, upper (op, value) | None) of a mask on the temperature data.  A term is read as
+    "data op bound" whichever side the data are written on (numpy evaluates ``T_mid >= T`` as the reflected
+    ``T <= T_mid``): the data side is the operand that holds a data atom (``is_data``: the data atoms of the
+    interpreter; the rule's own temperature vector is called Tdata)"""
+    if is_data is None:
+        is_data = lambda a_: a_.split('|')[0] == 'Tdata'
+
+    def has_data(v):
+        return isinstance(v, Rat) and any(is_data(a_) for a_ in v.atoms())
     lo = hi = None
     for op, a_, b_ in (mask.terms if mask is not None else []):
+        if has_data(b_) and not has_data(a_):
+            op, a_, b_ = _MIRROR.get(op, op), b_, a_
         if op in ('>', '>='):
             lo = (op, b_)
         elif op in ('<', '<='):
@@ -139,7 +167,7 @@ def mask_bounds(mask):
 
 
 FAMILIES = (('nasa', NASA + '.Nasa', lambda I: {'T_mid': I.D.sym('Tm')}, {'Tm': 3, 'T_ref': 2}),
-            ('nasa9', NASA + '.Nasa9', None, {}),
+            ('nasa9', NASA + '.Nasa9', None, {'MIN{(Tdata)}': 10, 'T_ref': 15, 'Tm0': 20, 'Tm1': 30, 'MAX{(Tdata)}': 100}),
             ('shomate', SHO + '.Shomate', lambda I: {'units': I.D.sym('units')}, {}))
 
 
@@ -309,13 +337,15 @@ def partly_zero_data(run, repo, tables):
     least-squares fit, not from the shortcut for species without heat capacity.  Bounded instance: a concrete grid of
     15 temperatures, first Cp entry zero, the other 14 generic."""
     n = 0
-    for fam, qual, extra in (('shomate', SHO + '.Shomate', lambda I: {'units': I.D.sym('units')}),):
+    for fam, qual, extra in (('shomate', SHO + '.Shomate', lambda I: {'units': I.D.sym('units')}),
+                             ('nasa', NASA + '.Nasa', lambda I: {'T_mid': C(800)})):
         ci = repo.cls(qual)
         owner, fn = repo.find_method(ci, 'from_data')
         con = '%s.%s.from_data' % (qual.split('.')[-2], qual.split('.')[-1])
         npts = 15
         I = Interp(repo, order=RankOrder({'T_ref': 400}, const_ranks=True, fallback=_fallback_rank))
         bounded_data(I)
+        bounded_extract(I)
         D = I.D
         cp = [C(0)]
         for k in range(1, npts):
@@ -383,6 +413,148 @@ def candidate_search(run, repo, tables):
                   'the candidate with the smallest error (%s)' % (show(tm), why or 'coefficients from that candidate',
                                                                    better), owner.module, fn,
                   sample='Nasa.from_data(T_mid=[Tma, Tmb]) with %s better -> T_mid=%s' % (better, better))
+    return n
+
+
+def _num(r):
+    """value of a constant normal form, else None"""
+    if isinstance(r, Rat) and r.iszero():
+        return Fr(0)
+    if isinstance(r, Rat) and r.is_const():
+        return r.const_value()
+    return None
+
+
+def bounded_extract(I):
+    """np.extract / a[mask] on arrays written out entry by entry (see bounded_data): the entries whose mask entry is
+    True, in order - numpy's definition; vectors of unknown length go to the fit model as before"""
+    base = I.native['numpy.extract']
+
+    def extract(I_, fr, args, kwargs, n):
+        pos = list(args)
+        cond = kwargs['condition'] if 'condition' in kwargs else pos.pop(0)
+        arr = kwargs['arr'] if 'arr' in kwargs else pos.pop(0)
+        if isinstance(cond, ListV) and isinstance(arr, ListV) and all(isinstance(c_, bool) for c_ in cond.items):
+            if len(cond) != len(arr):
+                raise Unsupported('np.extract with a condition of another length than the array', n)
+            out = ListV([x for x, keep in zip(arr.items, cond.items) if keep])
+            out.is_array = True
+            return out
+        return base(I_, fr, args, kwargs, n)
+    I.native['numpy.extract'] = extract
+    return I
+
+
+def bounded_candidates(run, repo, tables):
+    """T_mid given as a list of candidates on a grid small enough that the NUMBER of data points on either side of a
+    candidate matters (the code looks at it): 15 temperatures 100 ... 1500 K written out entry by entry, 15 generic
+    heat capacities, three candidates of which one leaves fewer than five points on one side.  The fit errors are
+    uninterpreted positive numbers whose order is the instance parameter; an error belongs to the candidate whose
+    two fits it was computed from.  Expectation (documented contract of T_mid as a list, as in candidate_search):
+    the species has the break of the candidate with the smallest error, a_low is the fit of exactly the data points
+    up to that break and a_high the fit of the others."""
+    ci = repo.cls(NASA + '.Nasa')
+    owner, fn = repo.find_method(ci, 'from_data')
+    cp_slots = sorted(tables['nasa']['powers'])
+    npts = 15
+    n = 0
+    for pos, errs in (((1, 7, 9), (3, 2, 1)), ((5, 7, 13), (2, 1, 3)), ((1, 7, 9), (1, 2, 3))):
+        T = grid(100, 1500, npts)
+        tvals = [_num(x) for x in T.items]
+        cands = [tvals[k] for k in pos]
+        win = pos[errs.index(min(errs))]
+        ranks = {'T_ref': 450, 'T_ref2': 1250}
+        I = Interp(repo, order=RankOrder(ranks, const_ranks=True, fallback=_fallback_rank))
+        bounded_data(I)
+        bounded_extract(I)
+        D = I.D
+        base_mean = I.native['numpy.mean']
+        means = {}
+
+        def candidate_of(v, I=I, cands=cands):
+            ks = set()
+            for x in v.items:
+                ks |= {int(a_[4:].split('.')[0]) for a_ in x.atoms() if a_.startswith('FIT#')}
+            xs = []
+            for k in sorted(ks):
+                fx = I.fit_calls[k - 1].x
+                vals = [_num(t) for t in fx.items] if isinstance(fx, ListV) else [None]
+                if not vals or None in vals:
+                    return None
+                xs.append(vals)
+            if len(xs) != 2:
+                return None
+            xs.sort(key=min)
+            hit = [c_ for c_ in cands if max(xs[0]) <= c_ <= min(xs[1])]
+            return cands.index(hit[0]) if len(hit) == 1 else None
+
+        def mean(I_, fr, args, kwargs, nd, base_mean=base_mean, means=means, ranks=ranks, errs=errs,
+                 candidate_of=candidate_of):
+            v = kwargs['a'] if 'a' in kwargs else (args[0] if args else None)
+            if isinstance(v, ListV) and v.items and all(isinstance(x, Rat) for x in v.items) and len(args) <= 1 \
+                    and not [k for k in kwargs if k != 'a']:
+                if all(x.iszero() for x in v.items):
+                    return C(0)
+                name = 'MEAN{bounded#%d}' % (len(means) + 1)
+                means[name] = candidate_of(v)
+                if means[name] is not None:
+                    ranks[name] = errs[means[name]]
+                return I_.D.sym(name)
+            return base_mean(I_, fr, args, kwargs, nd)
+        I.native['numpy.mean'] = mean
+        cps = []
+        for k in range(npts):
+            I.data_kind['cp%d' % k] = 'generic'
+            cps.append(D.sym('cp%d' % k))
+        cp = ListV(cps)
+        cp.is_array = True
+        kw = {'name': 'sp', 'T': T, 'CpoR': cp, 'T_ref': D.sym('T_ref'), 'HoRT_ref': D.sym('HoRT_ref'),
+              'SoR_ref': D.sym('SoR_ref'), 'T_mid': ListV([C(c_) for c_ in cands])}
+        o = I.call_function(owner.module, fn, [], kw, self_obj=ci, owner=owner, name=owner.qual + '.from_data')
+        key = '%d temperatures, candidates T[%d], T[%d], T[%d], smallest error at T[%d]' % ((npts,) + pos + (win,))
+        n += 1
+        if not isinstance(o, Obj):
+            run.fail('DATAFLOW.T_mid', 'nasa.Nasa.from_data', key, 'from_data does not build a species: %s'
+                     % show(o, 120), owner.module, fn)
+            continue
+        tm = o.attrs.get('T_mid')
+        why = []
+        if _num(tm) != tvals[win]:
+            why.append('the species is built with T_mid=%s' % show(tm))
+        split = None
+        for label, vec, side in (('a_low', o.attrs.get('a_low'), 'low'), ('a_high', o.attrs.get('a_high'), 'high')):
+            ks = fit_of(I, vec, cp_slots) if isinstance(vec, ListV) else []
+            if len(ks) != 1:
+                why.append('%s does not come from one fit' % label)
+                continue
+            fc = I.fit_calls[ks[0] - 1]
+            xv = [_num(t) for t in fc.x.items] if isinstance(fc.x, ListV) else None
+            yv = [sorted(a_ for a_ in y_.atoms() if a_.startswith('cp')) if isinstance(y_, Rat) else None
+                  for y_ in fc.y.items] if isinstance(fc.y, ListV) else None
+            if not xv or None in xv or yv is None or len(yv) != len(xv):
+                why.append('%s comes from a fit of %s against %s' % (label, show(fc.x, 60), show(fc.y, 60)))
+                continue
+            idx = [tvals.index(t) if t in tvals else None for t in xv]
+            # either convention for the point ON the break (T <= T_mid | T > T_mid, or T < T_mid | T >= T_mid)
+            want = [list(range(0, m)) if side == 'low' else list(range(m, npts)) for m in (win, win + 1)]
+            if split is not None:
+                want = [list(range(split, npts))]
+            if idx not in want:
+                why.append('%s was fitted to the data points %s, not to the points %s the break T[%d]'
+                           % (label, idx, 'up to' if side == 'low' else 'above', win))
+            elif side == 'low':
+                split = len(idx)
+            if yv != [['cp%d' % k] if k is not None else None for k in idx]:
+                why.append('the heat capacities of the %s fit are not those of its temperatures' % side)
+        run.check(not why, 'DATAFLOW.T_mid', 'nasa.Nasa.from_data', key,
+                  '%s - break temperature and both coefficient sets must come from the candidate with the smallest '
+                  'error, T[%d] = %s K (errors of the candidates in the order %s; candidate T[%d] leaves %d of %d '
+                  'data points on one side)' % ('; '.join(why), win, tvals[win], errs,
+                                                 pos[0] if pos[0] < 5 else pos[-1],
+                                                 pos[0] + 1 if pos[0] < 5 else npts - 1 - pos[-1], npts),
+                  owner.module, fn,
+                  sample='Nasa.from_data(T=linspace(100, 1500, 15), T_mid=%s) errors %s -> T_mid=%s'
+                  % ([str(c_) for c_ in cands], errs, tvals[win]))
     return n
 
 
@@ -495,57 +667,61 @@ def nasa7_pipeline(run, repo, tables):
     tab = tables['nasa']
     cp_slots = sorted(tab['powers'])
     n = 0
-    for (label, rank), kind in itertools.product((('T_ref<T_mid', 2), ('T_ref=T_mid', 3), ('T_ref>T_mid', 4)),
-                                                 ('generic', 'zero')):
+    for (label0, rank), kind in itertools.product((('T_ref<T_mid', 2), ('T_ref=T_mid', 3), ('T_ref>T_mid', 4)),
+                                                  ('generic', 'zero')):
         if kind == 'zero':
             # the documented fallback takes the break from the data: an entry of the temperature vector, ranked like
             # the break of the generic instance
-            label += ' [all-zero Cp data]'
-            I, o, _o, _f = fitted(repo, NASA + '.Nasa', kind, None, {'T_ref': rank},
+            label0 += ' [all-zero Cp data]'
+            I, o, _o, _f = fitted(repo, NASA + '.Nasa', kind, None, {'T_ref': rank, 'T_ref2': rank},
                                   fallback=lambda a_: 3 if a_.startswith('AT{') else _fallback_rank(a_))
         else:
             I, o, _o, _f = fitted(repo, NASA + '.Nasa', kind, lambda I_: {'T_mid': I_.D.sym('Tm')},
-                                  {'Tm': 3, 'T_ref': rank})
+                                  {'Tm': 3, 'T_ref': rank, 'T_ref2': rank})
+        o2 = fitted_again(I)
         D = I.D
-        Tref, Href, Sref = D.sym('T_ref'), D.sym('HoRT_ref'), D.sym('SoR_ref')
-        if not isinstance(o, Obj):
-            run.fail('ANCHOR.H', 'nasa.Nasa.from_data', label, 'from_data does not build a species: %s' % show(o, 120),
-                     owner.module, fn)
-            n += 1
-            continue
-        al, ah = o.attrs.get('a_low'), o.attrs.get('a_high')
-        H = lambda a, T: evaluator(I, repo, 'nasa', 'HoRT', a, T)
-        S = lambda a, T: evaluator(I, repo, 'nasa', 'SoR', a, T)
-        seg = al if rank <= 3 else ah
-        segname = 'low' if rank <= 3 else 'high'
-        # at T_ref == T_mid either segment may carry the anchor (they join there)
-        okH = same(H(seg, Tref), Href) or (rank == 3 and same(H(ah, Tref), Href))
-        okS = same(S(seg, Tref), Sref) or (rank == 3 and same(S(ah, Tref), Sref))
-        run.check(okH, 'ANCHOR.H', 'nasa.Nasa.from_data', label,
-                  'H/RT of the fitted species at T_ref (%s segment) is %s, not HoRT_ref' % (segname, show(H(seg, Tref))),
-                  owner.module, fn, sample='Nasa.from_data: H(T_ref)=HoRT_ref, %s' % label)
-        run.check(okS, 'ANCHOR.S', 'nasa.Nasa.from_data', label,
-                  'S/R of the fitted species at T_ref (%s segment) is %s, not SoR_ref' % (segname, show(S(seg, Tref))),
-                  owner.module, fn)
-        tm = o.attrs.get('T_mid')
-        run.check(same(H(al, tm), H(ah, tm)), 'CONT.H', 'nasa.Nasa.from_data', label,
-                  'H is discontinuous at T_mid: low %s vs high %s' % (show(H(al, tm)), show(H(ah, tm))),
-                  owner.module, fn)
-        run.check(same(S(al, tm), S(ah, tm)), 'CONT.S', 'nasa.Nasa.from_data', label,
-                  'S is discontinuous at T_mid', owner.module, fn)
-        # the Cp fit is left untouched and only the integration-constant slots are written
-        run.check(only_fit_atoms(al, cp_slots) and only_fit_atoms(ah, cp_slots), 'DATAFLOW.cp-slots',
-                  'nasa.Nasa.from_data', label, 'a heat-capacity coefficient was modified while anchoring H and S',
-                  owner.module, fn)
-        want_tm = D.sym('Tm') if kind == 'generic' else None
-        run.check(want_tm is None or same(tm, want_tm), 'DATAFLOW.T_mid', 'nasa.Nasa.from_data', label,
-                  'the species is built with T_mid=%s, not the break temperature the data were split at' % show(tm),
-                  owner.module, fn)
-        run.check(same(o.attrs.get('T_low'), D.sym('MIN{(Tdata)}')) and
-                  same(o.attrs.get('T_high'), D.sym('MAX{(Tdata)}')), 'DATAFLOW.bounds', 'nasa.Nasa.from_data', label,
-                  'temperature bounds are (%s, %s), not the span (min, max) of the data'
-                  % (show(o.attrs.get('T_low')), show(o.attrs.get('T_high'))), owner.module, fn)
-        n += 7
+        for sp, sfx, which in ((o, '', ''), (o2, '2', SECOND)):
+            label = label0 + which
+            Tref, Href, Sref = D.sym('T_ref' + sfx), D.sym('HoRT_ref' + sfx), D.sym('SoR_ref' + sfx)
+            if not isinstance(sp, Obj):
+                run.fail('ANCHOR.H', 'nasa.Nasa.from_data', label, 'from_data does not build a species: %s'
+                         % show(sp, 120), owner.module, fn)
+                n += 1
+                continue
+            al, ah = sp.attrs.get('a_low'), sp.attrs.get('a_high')
+            H = lambda a, T: evaluator(I, repo, 'nasa', 'HoRT', a, T)
+            S = lambda a, T: evaluator(I, repo, 'nasa', 'SoR', a, T)
+            seg = al if rank <= 3 else ah
+            segname = 'low' if rank <= 3 else 'high'
+            # at T_ref == T_mid either segment may carry the anchor (they join there)
+            okH = same(H(seg, Tref), Href) or (rank == 3 and same(H(ah, Tref), Href))
+            okS = same(S(seg, Tref), Sref) or (rank == 3 and same(S(ah, Tref), Sref))
+            run.check(okH, 'ANCHOR.H', 'nasa.Nasa.from_data', label,
+                      'H/RT of the fitted species at T_ref (%s segment) is %s, not HoRT_ref'
+                      % (segname, show(H(seg, Tref))), owner.module, fn,
+                      sample='Nasa.from_data: H(T_ref)=HoRT_ref, %s' % label)
+            run.check(okS, 'ANCHOR.S', 'nasa.Nasa.from_data', label,
+                      'S/R of the fitted species at T_ref (%s segment) is %s, not SoR_ref'
+                      % (segname, show(S(seg, Tref))), owner.module, fn)
+            tm = sp.attrs.get('T_mid')
+            run.check(same(H(al, tm), H(ah, tm)), 'CONT.H', 'nasa.Nasa.from_data', label,
+                      'H is discontinuous at T_mid: low %s vs high %s' % (show(H(al, tm)), show(H(ah, tm))),
+                      owner.module, fn)
+            run.check(same(S(al, tm), S(ah, tm)), 'CONT.S', 'nasa.Nasa.from_data', label,
+                      'S is discontinuous at T_mid', owner.module, fn)
+            # the Cp fit is left untouched and only the integration-constant slots are written
+            run.check(only_fit_atoms(al, cp_slots) and only_fit_atoms(ah, cp_slots), 'DATAFLOW.cp-slots',
+                      'nasa.Nasa.from_data', label, 'a heat-capacity coefficient was modified while anchoring H and S',
+                      owner.module, fn)
+            want_tm = D.sym('Tm') if kind == 'generic' else None
+            run.check(want_tm is None or same(tm, want_tm), 'DATAFLOW.T_mid', 'nasa.Nasa.from_data', label,
+                      'the species is built with T_mid=%s, not the break temperature the data were split at' % show(tm),
+                      owner.module, fn)
+            run.check(same(sp.attrs.get('T_low'), D.sym('MIN{(Tdata)}')) and
+                      same(sp.attrs.get('T_high'), D.sym('MAX{(Tdata)}')), 'DATAFLOW.bounds', 'nasa.Nasa.from_data',
+                      label, 'temperature bounds are (%s, %s), not the span (min, max) of the data'
+                      % (show(sp.attrs.get('T_low')), show(sp.attrs.get('T_high'))), owner.module, fn)
+            n += 7
     return n
 
 
@@ -607,7 +783,13 @@ def nasa9_pipeline(run, repo, tables, max_seg):
     for nseg, kind in itertools.product(range(1, max_seg + 1), ('generic', 'zero')):
         tag = ' [all-zero Cp data]' if kind == 'zero' else ''
         for j in range(nseg):
-            I, o, _o, _f = fitted(repo, NASA + '.Nasa9', kind, nasa9_extra(nseg))
+            # the ordering of this instance: min(T) < Tm0 < ... < Tm_{j-1} < T_ref < Tm_j < ... < max(T) - an
+            # implementation that looks up the interval containing T_ref (NASA-7 does) gets its answer
+            ranks = {'MIN{(Tdata)}': 10, 'MAX{(Tdata)}': 100, 'T_ref': 15 + 10 * j, 'T_ref2': 15}
+            ranks.update({'Tm%d' % k: 20 + 10 * k for k in range(nseg - 1)})
+            I, o, _o, _f = fitted(repo, NASA + '.Nasa9', kind, nasa9_extra(nseg), ranks)
+            twice = j == 0 or run.tier == 'thorough'
+            o2 = fitted_again(I) if twice else None        # its reference lies in the first interval
             D = I.D
             tmid = ListV([D.sym('Tm%d' % k) for k in range(nseg - 1)])
             Tref, Href, Sref = D.sym('T_ref'), D.sym('HoRT_ref'), D.sym('SoR_ref')
@@ -628,19 +810,24 @@ def nasa9_pipeline(run, repo, tables, max_seg):
                          for k, s in enumerate(segs.items))
                 run.check(ok, 'DATAFLOW.bounds', 'nasa.Nasa9.from_data', 'segments:%d' % nseg + tag,
                           'segment k must span [T_k, T_k+1] of [min(T), *T_mid, max(T)]', owner.module, fn)
-                for k in range(nseg - 1):
-                    tk = tmid.items[k]
-                    run.check(same(H(A[k], tk), H(A[k + 1], tk)), 'CONT.H', 'nasa.Nasa9.from_data',
-                              'segments:%d break:%d' % (nseg, k) + tag, 'H is discontinuous at break temperature %d' % k,
-                              owner.module, fn, sample='Nasa9.from_data(%d segments): H continuous at T_mid[%d]'
-                              % (nseg, k))
-                    run.check(same(S(A[k], tk), S(A[k + 1], tk)), 'CONT.S', 'nasa.Nasa9.from_data',
-                              'segments:%d break:%d' % (nseg, k) + tag, 'S is discontinuous at break temperature %d' % k,
-                              owner.module, fn)
-                    n += 2
                 run.check(all(only_fit_atoms(A[k], cp_slots) for k in range(nseg)), 'DATAFLOW.cp-slots',
                           'nasa.Nasa9.from_data', 'segments:%d' % nseg + tag,
                           'a heat-capacity coefficient was modified while anchoring H and S', owner.module, fn)
+                n += 2
+            # H and S join at every break, wherever T_ref lies (the matching may run upwards and downwards from the
+            # interval that carries the anchor)
+            where = '' if j == 0 else ' T_ref in segment %d' % j
+            for k in range(nseg - 1):
+                tk = tmid.items[k]
+                run.check(same(H(A[k], tk), H(A[k + 1], tk)), 'CONT.H', 'nasa.Nasa9.from_data',
+                          'segments:%d break:%d' % (nseg, k) + where + tag,
+                          'H is discontinuous at break temperature %d%s' % (k, ' with' + where if where else ''),
+                          owner.module, fn, sample='Nasa9.from_data(%d segments): H continuous at T_mid[%d]%s'
+                          % (nseg, k, where))
+                run.check(same(S(A[k], tk), S(A[k + 1], tk)), 'CONT.S', 'nasa.Nasa9.from_data',
+                          'segments:%d break:%d' % (nseg, k) + where + tag,
+                          'S is discontinuous at break temperature %d%s' % (k, ' with' + where if where else ''),
+                          owner.module, fn)
                 n += 2
             # anchor: the segment containing T_ref must reproduce the reference values
             key = ('T_ref in segment %d' % j if j else 'T_ref in segment 0') + (' of %d' % nseg + tag if tag else '')
@@ -659,6 +846,29 @@ def nasa9_pipeline(run, repo, tables, max_seg):
                       sig=lambda: 'the first segment reproduces the reference at T_ref, segment %d does not' % j
                       if j and same(S(A[0], Tref), Sref) else 'S/R(T_ref) = %s' % show(S(A[j], Tref), 80))
             n += 2
+            # the species fitted next in the same process: anchored at its own reference, continuous
+            if not twice:
+                continue
+            key2 = 'segments:%d%s%s' % (nseg, where, tag) + SECOND
+            segs2 = get_public(I, o2, 'nasas') if isinstance(o2, Obj) else None
+            if not isinstance(segs2, ListV) or len(segs2) != nseg:
+                run.fail('DATAFLOW.segments', 'nasa.Nasa9.from_data', key2,
+                         'expected %d segment objects, got %s' % (nseg, show(segs2 if segs2 is not None else o2)),
+                         owner.module, fn)
+                continue
+            A2 = [s.attrs['a'] for s in segs2.items]
+            Tref2 = D.sym('T_ref2')
+            run.check(same(H(A2[0], Tref2), D.sym('HoRT_ref2')), 'ANCHOR.H', 'nasa.Nasa9.from_data', key2,
+                      'H/RT(T_ref) of the second species (T_ref in its first interval) is %s, not its HoRT_ref'
+                      % show(H(A2[0], Tref2), 120), owner.module, fn)
+            run.check(same(S(A2[0], Tref2), D.sym('SoR_ref2')), 'ANCHOR.S', 'nasa.Nasa9.from_data', key2,
+                      'S/R(T_ref) of the second species (T_ref in its first interval) is not its SoR_ref',
+                      owner.module, fn)
+            ok = all(same(H(A2[k], tmid.items[k]), H(A2[k + 1], tmid.items[k])) and
+                     same(S(A2[k], tmid.items[k]), S(A2[k + 1], tmid.items[k])) for k in range(nseg - 1))
+            run.check(ok, 'CONT.H', 'nasa.Nasa9.from_data', key2,
+                      'H or S of the second species is discontinuous at a break temperature', owner.module, fn)
+            n += 3
     return n
 
 
@@ -669,7 +879,7 @@ def nasa9_species_bounds(run, repo, max_seg):
     owner, fn = repo.find_method(ci, 'from_data')
     n = 0
     for nseg, kind in itertools.product(range(1, max_seg + 1), ('generic', 'zero')):
-        ranks = {'MIN{(Tdata)}': 10, 'MAX{(Tdata)}': 100}
+        ranks = {'MIN{(Tdata)}': 10, 'T_ref': 15, 'MAX{(Tdata)}': 100}
         ranks.update({'Tm%d' % k: 20 + k for k in range(nseg - 1)})
         I, o, _o, _f = fitted(repo, NASA + '.Nasa9', kind, nasa9_extra(nseg), ranks)
         D = I.D
@@ -695,39 +905,66 @@ def shomate_pipeline(run, repo, tables):
     tab = tables['shomate']
     cp_slots = sorted(tab['powers'])
     n = 0
-    for kind in ('generic', 'zero'):
+    for kind in ('generic', 'zero', 'nan'):
         I, o, _o, _f = fitted(repo, SHO + '.Shomate', kind, lambda I_: {'units': I_.D.sym('units')})
+        o2 = fitted_again(I)
         D = I.D
-        key = 'any units' + (' [all-zero Cp data]' if kind == 'zero' else '')
-        Tref, Href, Sref, units = D.sym('T_ref'), D.sym('HoRT_ref'), D.sym('SoR_ref'), D.sym('units')
-        if not isinstance(o, Obj):
-            run.fail('ANCHOR.H', 'shomate.Shomate.from_data', key, 'from_data does not build a species: %s'
-                     % show(o, 120), owner.module, fn)
-            n += 1
-            continue
-        a = o.attrs.get('a')
-        H = evaluator(I, repo, 'shomate', 'HoRT', a, Tref, units)
-        S = evaluator(I, repo, 'shomate', 'SoR', a, Tref, units)
-        run.check(same(H, Href), 'ANCHOR.H', 'shomate.Shomate.from_data', key,
-                  'H/RT(T_ref) = %s, not HoRT_ref' % show(H), owner.module, fn,
-                  sample='Shomate.from_data: H(T_ref)=HoRT_ref for symbolic units')
-        run.check(same(S, Sref), 'ANCHOR.S', 'shomate.Shomate.from_data', key,
-                  'S/R(T_ref) = %s, not SoR_ref' % show(S), owner.module, fn)
-        run.check(isinstance(a, ListV) and len(a) == 8 and only_fit_atoms(a, cp_slots), 'DATAFLOW.cp-slots',
-                  'shomate.Shomate.from_data', key,
-                  'a heat-capacity coefficient was modified while anchoring H and S', owner.module, fn)
-        run.check(same(o.attrs.get('T_low'), D.sym('MIN{(Tdata)}')) and
-                  same(o.attrs.get('T_high'), D.sym('MAX{(Tdata)}')),
-                  'DATAFLOW.bounds', 'shomate.Shomate.from_data', key,
-                  'temperature bounds are not the span of the data', owner.module, fn)
-        run.check(same(get_public(I, o, 'units'), units), 'DATAFLOW.units', 'shomate.Shomate.from_data', key,
-                  'the species is not built with the fitting units', owner.module, fn)
-        n += 5
+        tag = {'generic': '', 'zero': ' [all-zero Cp data]', 'nan': ' [Cp data with NaN]'}[kind]
+        units = D.sym('units')
+        for sp, sfx, which in ((o, '', ''), (o2, '2', SECOND)):
+            key = 'any units' + tag + which
+            Tref, Href, Sref = D.sym('T_ref' + sfx), D.sym('HoRT_ref' + sfx), D.sym('SoR_ref' + sfx)
+            if not isinstance(sp, Obj):
+                run.fail('ANCHOR.H', 'shomate.Shomate.from_data', key, 'from_data does not build a species: %s'
+                         % show(sp, 120), owner.module, fn)
+                n += 1
+                continue
+            a = sp.attrs.get('a')
+            H = evaluator(I, repo, 'shomate', 'HoRT', a, Tref, units)
+            S = evaluator(I, repo, 'shomate', 'SoR', a, Tref, units)
+            shared = ' (after a second species was fitted: the two species share state)' if not which else ''
+            run.check(same(H, Href), 'ANCHOR.H', 'shomate.Shomate.from_data', key,
+                      'H/RT(T_ref) = %s, not HoRT_ref%s' % (show(H), shared), owner.module, fn,
+                      sample='Shomate.from_data: H(T_ref)=HoRT_ref for symbolic units' + which)
+            run.check(same(S, Sref), 'ANCHOR.S', 'shomate.Shomate.from_data', key,
+                      'S/R(T_ref) = %s, not SoR_ref%s' % (show(S), shared), owner.module, fn)
+            run.check(isinstance(a, ListV) and len(a) == 8 and only_fit_atoms(a, cp_slots), 'DATAFLOW.cp-slots',
+                      'shomate.Shomate.from_data', key,
+                      'a heat-capacity coefficient was modified while anchoring H and S', owner.module, fn)
+            run.check(same(sp.attrs.get('T_low'), D.sym('MIN{(Tdata)}')) and
+                      same(sp.attrs.get('T_high'), D.sym('MAX{(Tdata)}')),
+                      'DATAFLOW.bounds', 'shomate.Shomate.from_data', key,
+                      'temperature bounds are not the span of the data', owner.module, fn)
+            run.check(same(get_public(I, sp, 'units'), units), 'DATAFLOW.units', 'shomate.Shomate.from_data', key,
+                      'the species is not built with the fitting units', owner.module, fn)
+            n += 5
     return n
 
 
 # ----------------------------------------------------------------------
 # E. from_model: reference values sampled from the same model at the temperature passed as T_ref
+
+def bind_call(fn, args, kwargs, node):
+    """{parameter name: value} of a call of the (class)method ``fn`` with positional and keyword arguments, as
+    Python binds them (defaults are not filled in); a call Python rejects raises the TypeError"""
+    a_ = fn.args
+    pos = [q.arg for q in a_.posonlyargs + a_.args]
+    if pos and pos[0] in ('self', 'cls'):
+        pos = pos[1:]
+    out = {}
+    if len(args) > len(pos):
+        if a_.vararg is None:
+            raise _RaisedExc(Raised('TypeError', node))
+        out[a_.vararg.arg] = ListV(list(args[len(pos):]))
+    for nm, v in zip(pos, args):
+        out[nm] = v
+    known = set(pos) | {q.arg for q in a_.kwonlyargs}
+    for k, v in kwargs.items():
+        if k in out or (k not in known and a_.kwarg is None):
+            raise _RaisedExc(Raised('TypeError', node))
+        out[k] = v
+    return out
+
 
 def from_model(run, repo):
     n = 0
@@ -774,10 +1011,15 @@ def from_model(run, repo):
             model.missing = {'T_low', 'T_high'}     # a model without its own validity range
         cap = {}
 
-        def capture(I_, fr, args, kwargs, nd):
-            cap.update(kwargs)
+        fd_owner, fd_fn = repo.find_method(ci, 'from_data')
+
+        def capture(I_, fr, args, kwargs, nd, fd_fn=fd_fn):
+            # what from_data receives, by parameter name: positional arguments are bound against its signature
+            cap.update(bind_call(fd_fn, args, kwargs, nd))
             return 'built'
-        I.opaque_funcs[owner.qual + '.from_data'] = capture
+        I.opaque_funcs[fd_owner.qual + '.from_data'] = capture
+        if fd_owner.qual != owner.qual:
+            I.opaque_funcs[owner.qual + '.from_data'] = capture
 
         def mini(I_, fr, args, kwargs, nd):
             x0 = kwargs.get('x0')
@@ -900,6 +1142,8 @@ def check(run, repo):
     n = partly_zero_data(run, repo, tables)
     run.floor('partly zero data instances', n, 1)
     candidate_search(run, repo, tables)
+    n = bounded_candidates(run, repo, tables)
+    run.floor('candidate lists on a bounded grid', n, 3)
     n = default_break_search(run, repo)
     run.floor('default break search instances', n, 2)
     n = nasa7_pipeline(run, repo, tables)
@@ -972,6 +1216,70 @@ MUTANTS = [
      'edits': [(N, '        T_mid = T[5:-5]', '        T_mid = T[:-5]')]},
     {'name': 'default T_mid screen runs up to the last data point', 'expect': ('REF.break-inside', 'Nasa.from_data'),
      'edits': [(N, '        T_mid = T[5:-5]', '        T_mid = T[5:]')]},
+    # white-box review, round 2
+    {'name': 'Shomate: the zero-Cp coefficient row is one module-level array (state shared by all such species)',
+     'expect': ('ANCHOR', 'Shomate.from_data'),
+     'edits': [(S_, 'class Shomate(EmpiricalBase):', '_A_NO_CP = np.zeros(8)\n\n\nclass Shomate(EmpiricalBase):'),
+               (S_, '        return np.zeros(8)', '        return _A_NO_CP')]},
+    {'name': 'NASA-9: the zero rows are memoised per number of intervals (second species starts from the first one\'s '
+             'constants)', 'expect': ('ANCHOR', 'Nasa9.from_data'),
+     'edits': [(N, 'def _fit_CpoR9(', '_ZERO_ROWS = {}\n\n\ndef _fit_CpoR9('),
+               (N, '        return [np.zeros(9) for _ in range(len(T_mid) + 1)]',
+                '        n_rows = len(T_mid) + 1\n        if n_rows not in _ZERO_ROWS:\n'
+                '            _ZERO_ROWS[n_rows] = [np.zeros(9) for _ in range(n_rows)]\n'
+                '        return _ZERO_ROWS[n_rows]')]},
+    {'name': 'NASA-7: the zero rows of the fallback are two module-level arrays', 'expect': ('ANCHOR', 'Nasa.from_data'),
+     'edits': [(N, 'def _fit_CpoR(T, CpoR, T_mid=None):',
+                '_A_LOW_NO_CP = np.zeros(7)\n_A_HIGH_NO_CP = np.zeros(7)\n\n\ndef _fit_CpoR(T, CpoR, T_mid=None):'),
+               (N, '        a_low = np.zeros(7)\n        a_high = np.zeros(7)',
+                '        a_low = _A_LOW_NO_CP\n        a_high = _A_HIGH_NO_CP')]},
+    {'name': 'NASA-7: candidates that leave fewer than 5 points below them are not screened (the error list shifts '
+             'against the candidate list)', 'expect': ('DATAFLOW.T_mid', 'Nasa.from_data'),
+     'edits': [(N, 'def _get_CpoR_MSE(T, CpoR, T_mid):', 'def _get_CpoR_MSE(T, CpoR, T_mid, skip_small=False):'),
+               (N, '        (mse, a_low, a_high) = _get_CpoR_MSE(T=T, CpoR=CpoR, T_mid=T_m)',
+                '        fit = _get_CpoR_MSE(T=T, CpoR=CpoR, T_mid=T_m, skip_small=len(T_mid) > 1)\n'
+                '        if fit is None:\n            continue\n        (mse, a_low, a_high) = fit'),
+               (N, '        warn(warn_msg, RuntimeWarning)\n    if len(T_high) < 5:',
+                '        warn(warn_msg, RuntimeWarning)\n        if skip_small:\n            return None\n'
+                '    if len(T_high) < 5:')]},
+    {'name': 'NASA-7: candidates that leave fewer than 5 points above them end the screening',
+     'expect': ('DATAFLOW.T_mid', 'Nasa.from_data'),
+     'edits': [(N, '        (mse, a_low, a_high) = _get_CpoR_MSE(T=T, CpoR=CpoR, T_mid=T_m)',
+                '        if len(T_mid) > 1 and len(np.extract(condition=(T > T_m), arr=T)) < 5:\n            break\n'
+                '        (mse, a_low, a_high) = _get_CpoR_MSE(T=T, CpoR=CpoR, T_mid=T_m)')]},
+    {'name': 'NASA-7: one vanishing heat capacity sends the species down the zero-Cp shortcut',
+     'expect': ('REF.fit', 'Nasa.from_data'),
+     'edits': [(N, '''    if all([np.isclose(x, 0.) for x in CpoR]) \\
+       or any([np.isnan(x) for x in CpoR]):
+        T_mid = T[int(len(T) / 2)]''', '''    if any([np.isclose(x, 0.) or np.isnan(x) for x in CpoR]):
+        T_mid = T[int(len(T) / 2)]''')]},
+    {'name': 'NASA-9 H anchor placed in the interval of T_ref, lower intervals matched at the wrong break',
+     'expect': ('CONT.H', 'Nasa9.from_data'),
+     'edits': [(N, '''    a[0][7] = (HoRT_ref - get_nasa9_HoRT(a=a[0], T=T_ref)) * T_ref
+    for i, row_a in enumerate(a[1:], start=1):
+        a8_low = (HoRT_ref - get_nasa9_HoRT(a=a[i - 1], T=T_ref)) * T_ref
+        a8_high = (HoRT_ref - get_nasa9_HoRT(a=a[i], T=T_ref)) * T_ref
+
+        HoRT_low = get_nasa9_HoRT(a=a[i - 1],
+                                  T=T_mid[i - 1]) + a8_low / T_mid[i - 1]
+        HoRT_high = get_nasa9_HoRT(a=a[i],
+                                   T=T_mid[i - 1]) + a8_high / T_mid[i - 1]
+        HoRT_offset = HoRT_low - HoRT_high
+        a[i][7] = T_mid[i - 1] * (a8_high / T_mid[i - 1] + HoRT_offset)
+
+        HoRT_ref = HoRT_low
+        T_ref = T_mid[i - 1]
+    return a''', '''    i_ref = sum(1 for T_m in T_mid if T_ref > T_m)
+    a[i_ref][7] = (HoRT_ref - get_nasa9_HoRT(a=a[i_ref], T=T_ref)) * T_ref
+    for i in range(i_ref + 1, len(a)):
+        HoRT_low = get_nasa9_HoRT(a=a[i - 1], T=T_mid[i - 1])
+        HoRT_high = get_nasa9_HoRT(a=a[i], T=T_mid[i - 1])
+        a[i][7] = T_mid[i - 1] * (HoRT_low - HoRT_high)
+    for i in range(i_ref - 1, -1, -1):
+        HoRT_high = get_nasa9_HoRT(a=a[i + 1], T=T_mid[i - 1])
+        HoRT_low = get_nasa9_HoRT(a=a[i], T=T_mid[i - 1])
+        a[i][7] = T_mid[i - 1] * (HoRT_high - HoRT_low)
+    return a''')]},
 ]
 EQUIV = [
     {'name': 'default T_mid screen written with an explicit upper index',
@@ -989,4 +1297,20 @@ EQUIV = [
      'edits': [(N, '        a7_low_out = SoR_ref - get_nasa_SoR(a=a_low, T=T_ref)', '        a7_low_out = -(get_nasa_SoR(a=a_low, T=T_ref) - SoR_ref)')]},
     {'name': 'masks written with flipped operands kept complementary',
      'edits': [(N, '    low_condition = (T <= T_mid)\n    high_condition = (T > T_mid)', '    low_condition = (T < T_mid)\n    high_condition = (T >= T_mid)')]},
+    {'name': 'NASA-7 masks written with the break temperature on the left',
+     'edits': [(N, '    low_condition = (T <= T_mid)\n    high_condition = (T > T_mid)', '    low_condition = (T_mid >= T)\n    high_condition = (T_mid < T)')]},
+    {'name': 'NASA-9 lower test written with the bound on the left',
+     'edits': [(N, '        condition = (T > T1) & (T <= T2)', '        condition = (T1 < T) & (T <= T2)')]},
+    {'name': 'from_model hands the leading arguments of from_data positionally',
+     'edits': [(S_, '''        return cls.from_data(name=name,
+                             T=T,
+                             CpoR=CpoR,
+                             T_ref=T_mean,
+                             HoRT_ref=HoRT_ref,
+                             SoR_ref=SoR_ref,''', '''        return cls.from_data(name, T, CpoR, T_mean, HoRT_ref, SoR_ref,''')]},
+    {'name': 'arg-min of the candidate errors with the builtin',
+     'edits': [(N, '    min_mse = min(mse_list)\n    min_i = np.where(min_mse == mse_list)[0][0]', '    min_i = min(range(len(mse_list)), key=lambda i: mse_list[i])')]},
+    {'name': 'NASA-9 anchor helpers loop over the upper intervals by index',
+     'edits': [(N, '    for i, row_a in enumerate(a[1:], start=1):', '    for i in range(1, len(a)):', 0, 2),
+               (N, '    for i, row_a in enumerate(a[1:], start=1):', '    for i in range(1, len(a)):')]},
 ]
